@@ -90,7 +90,33 @@ def fresh_like(ag):
     return f
 
 
+def string_built(ctx, rep):
+    """an equation built from a STRING is an object like any other from its first moment: it can be copied (what variation, halls of
+    fame and checkpoints do) before anything has read it, and the copy behaves as a freshly built equation"""
+    rng = ctx.rng
+    x = np.array([[0.7], [-1.3], [2.0]])
+    for t in range(ctx.n(20, 200)):
+        e = rng.choice(["2.5*X_0 + 1.25", "sin(1.5*X_0) + 3.0", "X_0*X_0 - 0.75*X_0", "X_0 + X_0", "(X_0 + 2.0)*(X_0 - 0.5)", "3*X_0"])
+        simp = rng.random() < 0.3
+        case = {"equation": e, "use_simplification": simp}
+        rep.case(("string-built", e, simp, t), True)
+        rep.count("string_built_first_operation", "copy")
+        try:
+            with warnings.catch_warnings():
+                warnings.simplefilter("ignore")
+                a = AGraph(equation=e, use_simplification=simp)
+                c = a.copy() if rng.random() < 0.5 else copy.deepcopy(a)
+                o_c, o_f = observations(c, x), observations(AGraph(equation=e, use_simplification=simp), x)
+        except Exception as exc:
+            rep.violate(f"AGraph(equation={e!r}).copy() as the first operation raised {type(exc).__name__}: {exc}", "C18:observation-raised", case)
+            continue
+        if o_c != o_f:
+            diff = [k_ for k_ in o_c if o_c[k_] != o_f[k_]]
+            rep.violate(f"a copy taken right after AGraph(equation={e!r}) differs from a freshly built equation in {diff}", "C18:copy-differs", case)
+
+
 def run(ctx, rep):
+    string_built(ctx, rep)
     rng = ctx.rng
     rep.rule = ("random operation sequences of length 3..25 (assign command array, edit a row through mutable_command_array, set constants of the "
                 "right length, observe through any reader, set fitness) on AGraphs with reduce / CAS simplification; after every operation: observations vs a fresh object, every reader as the first read, parameter count vs the stack; copies in both directions; distinct = distinct (setting, sequence); "
